@@ -316,7 +316,7 @@ Summary(E) ==
                   ELSE IF decl(n).dir = "in" THEN "port_in" ELSE "port_out"],
       dflt |-> [n \in names |-> IF decl(n).hasdefault = 1 THEN CLit(decl(n).ty, decl(n).default) ELSE
                                  \* no default: the value is unspecified until first assigned
-                                 (IF decl(n).ty.k = "bit" THEN CBit(2) ELSE CV(decl(n).ty.k, AllU(decl(n).ty.w)))],
+                                 CUnknown(decl(n).ty)],
       hasdflt |-> [n \in names |-> decl(n).hasdefault = 1],
       noreset |-> [n \in names |-> decl(n).noreset = 1],
       inputs |-> {ports[i].n : i \in {j \in 1..Len(ports) : ports[j].dir = "in"}},
